@@ -99,7 +99,7 @@ def gen_int(rng, width):
     if r < 0.30:
         return top
     if r < 0.40:
-        return rng.choice([1, 9, 10, top - 1])
+        return min(top, rng.choice([1, 9, 10, max(0, top - 1)]))
     return rng.randint(0, top)
 
 
